@@ -591,6 +591,16 @@ class C04World:
             raise _V(Violation("PERTURB" if it.perturbed else "STATE-DEPENDENT",
                                f"{op}: yielded message #{it.yields} differs from unperturbed twin: "
                                f"{_msg_fields(ms)} != {_msg_fields(mt)}", key))
+        # Oracle F: what the generator hands out IS the k-th message the sequence stores in that view right now (the README's
+        # contract: edit the yielded message, the sequence changes). The twin cannot see a generator that walks a list captured
+        # earlier - it runs the same code - but the identity can.
+        S = slot.seq
+        lst = raw_abs(S) if it.view == "abs" else raw_rel(S)
+        if lst is None or it.yields >= len(lst) or lst[it.yields] is not ms:
+            raise _V(Violation("ITER-STALE", f"{op}: message #{it.yields} handed out by the {it.view} generator is not message "
+                               f"#{it.yields} of the sequence's stored {it.view} view "
+                               f"({'view marked stale' if lst is None else 'list has ' + str(len(lst)) + ' messages'}): the iteration walks "
+                               f"something else than the sequence as it is", key))
         it.cur_s, it.cur_t = ms, mt
         it.yields += 1
         it.dirty = False
